@@ -10,7 +10,8 @@ import subprocess
 import threading
 
 from harness import wbgen
-from harness.common import PY, canon, ensure_impl_on_path, impl_env, known_predicate
+from harness.common import (PY, Unencodable, canon, dec_val, enc_val, ensure_impl_on_path, impl_env, known_predicate,
+                            same)
 
 GEN_MODULES = ['excelutil', 'aggregates', 'stats']
 
@@ -19,6 +20,14 @@ ASSUMPTIONS = [
     "content map and the model rebuilt from it (coq/Model/Persist.v), the byte claims are judged by the oracle",
     "fresh-process loads run `/venv/bin/python` with PYTHONPATH=/repo/src on a small driver script written "
     "into the check's work directory",
+    "trusted oracles of the theorems: parse(print(v)) = v for the yaml/json scalar printers (policed by the content "
+    "pool of this harness) and pickle.load(pickle.dump(x)) = x; AddressRange (what is a range, its members, the "
+    "sort key) and ExcelFormula (precedents and meaning of python code) are parameters of the model",
+    "the model's evaluator is the non-iterative machine of coq/Model/Graph.v: for iterative models only the saved "
+    "document is compared with the model, their post-load behaviour is judged by the oracle alone",
+    "float arithmetic on the awkward contents (1e-7, 0.1, 1e22 …) is exact in the model: a formula value that "
+    "differs from the implementation's only by IEEE rounding (relative 1e-12) is counted as float-inexact, not as "
+    "a divergence; the sign of -0.0 is not modelled",
 ]
 
 CONTENT_POOL = [1e-7, 1e22, -0.0, 0.1, 123456789.125, 'true', 'null', '~', 'yes', '12', '1e3', '=notformula',
@@ -60,6 +69,296 @@ def _iterative_history(case):
     return case.get('call') == 'persist' and a[1:2] == ['cycles'] and 'history' in case
 
 
+@known_predicate('C03-eq-text-input')
+def _eq_text_input(case):
+    """an input cell holding a text that starts with '=' at the time of the save (inert until the coordinator
+    registers the finding): saved verbatim, read back as a formula (coq/Refuted/C03_eq_text.v)"""
+    return case.get('call') == 'persist' and case.get('eq_text_input')
+
+
+@known_predicate('C03-resave-extra-data-key-order')
+def _resave_extra(case):
+    """byte identity of a second save when extra_data is a dict (inert until registered): _to_text updates the
+    user's dict in place, so 'cell_map' moves behind 'filename' (coq/Refuted/C03_resave_extra_data.v)"""
+    return case.get('call') == 'persist' and case.get('oracle') == 'bytes' and case.get('extra_data_dict')
+
+# ------------------------------------------------------------------ correspondence with coq/Model/Persist.v
+def parse_doc(path, ext):
+    """The saved document as an ordered mapping (json: json.load, yml: ruamel.yaml safe load)."""
+    if ext == 'json':
+        return json.load(open(path))
+    from ruamel.yaml import YAML
+    return YAML(typ='safe').load(open(path))
+
+
+def cyc_val(c):
+    """cycles setting on the wire: False | (iterations, tolerance)"""
+    if isinstance(c, dict):
+        return (c.get('iterations'), c.get('tolerance'))
+    return c
+
+
+def corr_capture(orig, wb, ext, cycles, pre=None):
+    """What the model needs to know about the object that is saved; None when the case is outside the model.
+    pre = the node indices evaluated to build the object (default: every cell, in order)."""
+    vals0, codes = {}, []
+    for i, n in enumerate(wb.nodes):
+        cell = orig.cell_map.get(n['addr'])
+        if cell is None and pre is not None:
+            codes.append([])         # not in the saved model: never read by the model either
+            continue
+        if n['kind'] == 'input':
+            if cell is None or cell.formula is not None:
+                return None          # '=notformula' written through openpyxl IS a formula: not the generated workbook
+            vals0[i] = cell.value
+            codes.append([])
+        elif n['kind'] == 'formula':
+            if cell is None or cell.formula is None:
+                return None
+            codes.append([ord(c) for c in cell.formula.python_code])
+        else:
+            codes.append([])
+    order = []
+    for addr in orig.cell_map:
+        i = wb.index_of(addr)
+        if i is None:
+            return None
+        order.append(i)
+    try:
+        nodes = wb.wire(inputs=vals0)
+        settings = [enc_val(cyc_val(orig.cycles)), enc_val(orig.filename), enc_val(orig._excel_file_md5_digest), [0]]
+    except Unencodable:
+        return None
+    keys = [n.get('row', n.get('r1', 0)) for n in wb.nodes]
+    pre = [[0, i] for i in (wb.cells() if pre is None else pre)]
+    return dict(nodes=nodes, codes=codes, keys=keys, order=order, pre=pre, settings=settings, ext=ext, cycles=cycles,
+                wb=wb)
+
+
+def canon_j(v):
+    from harness.common import jsonable
+    return jsonable(v)
+
+
+def enc_ops(wb, ops):
+    out = []
+    for op in ops:
+        i = wb.index_of(op[1])
+        out.append([0, i] if op[0] == 'eval' else [1, i, enc_val(op[2])])
+    return out
+
+
+def run_ops_snap(comp, wb, ops):
+    """values and cell-map snapshots, operation by operation"""
+    out = []
+    for op in ops:
+        if op[0] == 'eval':
+            v = canon(comp.evaluate(op[1]))
+        else:
+            comp.set_value(op[1], op[2])
+            v = None
+        out.append((v, wbgen.snapshot(comp, wb)))
+    return out
+
+
+def mval(x):
+    """model value (wire) -> canonical implementation form"""
+    def fix(v):
+        if isinstance(v, list):
+            return [fix(y) for y in v]
+        if isinstance(v, tuple) and not (len(v) == 2 and v[0] == 'float'):
+            return tuple(fix(y) for y in v)
+        return v
+    return fix(dec_val(x))
+
+
+def val_rel(m, i):
+    """'same' | 'float' (differs by IEEE rounding only) | 'diff'"""
+    if same(m, i):
+        return 'same'
+    if isinstance(m, tuple) and isinstance(i, tuple) and len(m) == 2 == len(i) and m[0] == 'float' == i[0]:
+        try:
+            a, b = float(m[1]), float(i[1])
+            if abs(a - b) <= 1e-12 * max(abs(a), abs(b)):
+                return 'float'
+        except Exception:    # noqa: BLE001
+            pass
+    return 'diff'
+
+
+def unjson(v):
+    """inverse of jsonable(canon(value)) for the values a history returns"""
+    if isinstance(v, dict) and 'frac' in v:
+        import fractions
+        return fractions.Fraction(v['frac'][0], v['frac'][1])
+    if isinstance(v, list):
+        if len(v) == 2 and v[0] == 'float':
+            return ('float', unjson(v[1]))
+        return tuple(unjson(x) for x in v)
+    return v
+
+
+def cmp_doc(ctx, case, what, mdoc, data, wb):
+    """model document (wire) against the parsed file: key order, cell map (addresses in order, constants, code)"""
+    mkeys = [''.join(chr(c) for c in kv[0]) for kv in mdoc]
+    ikeys = list(data.keys())
+    if mkeys != ikeys:
+        ctx.divergence(dict(case, leg=what), ikeys, mkeys, 'Persist.to_text top-level key order = keys of the saved file')
+        return False
+    for kv, k in zip(mdoc, mkeys):
+        tag, body = kv[1][0], kv[1][1]
+        if tag == 1:
+            icells = list(data[k].items())
+            mcells = [(wb.nodes[x[0]]['addr'], mval(x[1])) for x in body]
+            if [a for a, _ in icells] != [a for a, _ in mcells]:
+                ctx.divergence(dict(case, leg=what), [a for a, _ in icells], [a for a, _ in mcells],
+                               'Persist.saved_cells addresses in order = cell_map of the saved file')
+                return False
+            for (a, iv), (_, mv) in zip(icells, mcells):
+                is_code = isinstance(mv, str) and mv.startswith('=')
+                ok = (iv == mv) if is_code or isinstance(iv, str) else same(mv, canon(iv))
+                if not ok:
+                    ctx.divergence(dict(case, leg=what, addr=a), iv, mv,
+                                   'Persist.cell_value = entry of the saved file (code / constant)')
+                    return False
+        else:
+            iv = data[k]
+            iv = cyc_val(dict(iv)) if hasattr(iv, 'keys') else iv
+            if not same(mval(body), canon(iv)) and not (mval(body) == canon(iv)):
+                ctx.divergence(dict(case, leg=what, key=k), iv, mval(body), 'Persist.to_text settings = saved file')
+                return False
+    return True
+
+
+def cmp_trace(ctx, case, what, mtrace, itrace):
+    """model trace ((value snapshot) …) against implementation values (jsonable history results)"""
+    for j, (m, it) in enumerate(zip(mtrace, itrace)):
+        if it[0] != 'ok':
+            ctx.divergence(dict(case, leg=what, step=j), it, mval(m[0]), 'Persist/Graph history: the model never raises')
+            return 'diff'
+        if it[1] is None and mval(m[0]) is None:
+            continue
+        r = val_rel(mval(m[0]), unjson(it[1]))
+        if r == 'float':
+            return 'float'
+        if r == 'diff':
+            ctx.divergence(dict(case, leg=what, step=j), it[1], mval(m[0]),
+                           'value returned by the model history = value returned by ExcelCompiler')
+            return 'diff'
+    return 'same'
+
+
+def cmp_snap(ctx, case, what, msnap_sx, isnap):
+    msnap = {i: mval(x[1]) for i, x in enumerate(msnap_sx) if x[0] == 1}
+    if set(msnap) != set(isnap):
+        ctx.divergence(dict(case, leg=what), sorted(isnap), sorted(msnap), 'built set of the model = keys of cell_map')
+        return 'diff'
+    rels = {val_rel(msnap[i], isnap[i]) for i in isnap}
+    if 'diff' in rels:
+        diff = {i: (isnap[i], msnap[i]) for i in isnap if val_rel(msnap[i], isnap[i]) == 'diff'}
+        ctx.divergence(dict(case, leg=what), diff, 'see impl', 'cache snapshot of the model = cell_map values')
+        return 'diff'
+    return 'float' if 'float' in rels else 'same'
+
+
+MARK = '#MODEL-RAISE'
+
+
+def unmodelled(*traces):
+    """a formula of the case left the operator model (Model/GraphExpr.v answers with a marker value)"""
+    def has(v):
+        if isinstance(v, str):
+            return MARK in v
+        if isinstance(v, (tuple, list)):
+            return any(has(x) for x in v)
+        return False
+    return any(has(mval(m[0])) or any(has(mval(x[1])) for x in m[1]) for t in traces for m in t)
+
+
+def correspondence(ctx, batch):
+    if not ctx.model or not batch:
+        return
+    calls = [('persist', [c['nodes'], c['codes'], c['keys'], c['order'], c['pre'], c['settings'],
+                          enc_ops(c['wb'], c['ops']) if not c['cycles'] else []]) for c in batch]
+    answers = ctx.model.batch(calls)
+    for c, ans in zip(batch, answers):
+        case, wb = c['case'], c['wb']
+        if not isinstance(ans, list) or len(ans) != 4:
+            ctx.divergence(case, 'n/a', ans, 'Extract/C03.v persist entry rejected the input')
+            continue
+        mdoc, mtrace0, mloaded, mdoc_again = ans
+        kind = f"corr:{c['ext']}:{'cycles' if c['cycles'] else 'plain'}"
+        ctx.count(('corr', c['k']), kind=kind)
+        # ---- the saved document
+        if c.get('doc') is not None:
+            if cmp_doc(ctx, case, 'saved document', mdoc, c['doc'], wb):
+                ctx.count(('corr-doc', c['k']), kind='corr-doc:' + c['ext'])
+        if mloaded[0] != 1:
+            ctx.divergence(case, 'loads', mloaded, 'Persist.from_text succeeds where from_file succeeds')
+            continue
+        _, mset, msnap0, mtrace1, mdoc2, mextra = mloaded
+        # ---- a second save of the same object / the extra_data of the loaded model (extra_data cases)
+        if c.get('doc_again') is not None:
+            if cmp_doc(ctx, case, 'second save of the same object', mdoc_again, c['doc_again'], wb):
+                ctx.count(('corr-again', c['k']), kind='corr-second-save:' + c['ext'])
+        if c.get('extra_keys') is not None:
+            mk = [''.join(chr(x) for x in k) for k in mextra]
+            if mk != c['extra_keys']:
+                ctx.divergence(dict(case, leg='extra_data'), c['extra_keys'], mk,
+                               'keys of extra_data of Persist.from_text = loaded ExcelCompiler.extra_data')
+            else:
+                ctx.count(('corr-extra', c['k']), kind='corr-extra_data:' + c['ext'])
+        # ---- settings of the loaded model
+        meta = c.get('meta')
+        if meta is not None:
+            if meta['filename'] != mval(mset[1]) or bool(meta['cycles']) != bool(mval(mset[0])):
+                ctx.divergence(dict(case, leg='settings'), meta, [mval(x) for x in mset],
+                               'cycles / filename of Persist.from_text = loaded ExcelCompiler')
+        # ---- a save of the loaded model
+        if c.get('doc2') is not None:
+            if cmp_doc(ctx, case, 'document saved by the loaded model', mdoc2, c['doc2'], wb):
+                ctx.count(('corr-doc2', c['k']), kind='corr-resave:' + c['ext'])
+        if c['cycles']:
+            continue
+        if unmodelled(mtrace0, mtrace1, [[[0], msnap0]]):
+            ctx.count(('corr-unmodelled', c['k']), kind='corr-skip:operator outside the model', nontrivial=False)
+            continue
+        # ---- histories: the original object, the loaded object (wherever it was loaded), and an extra
+        #      in-process load with cache snapshots
+        r0 = cmp_trace(ctx, case, 'history on the original', mtrace0, c['want'])
+        if r0 != 'same':
+            if r0 == 'float':
+                ctx.count(('corr-float', c['k']), kind='corr-skip:float-inexact', nontrivial=False)
+            continue
+        ctx.count(('corr-trace0', c['k']), kind='corr-history:original')
+        if c.get('snap_orig') is not None:
+            r = 'same'
+            for j, ((iv, isn), m) in enumerate(zip(c['snap_orig'], mtrace0)):
+                r = cmp_snap(ctx, dict(case, step=j), 'cache of the original along the history', m[1], isn)
+                if r != 'same':
+                    break
+            if r == 'same':
+                ctx.count(('corr-snap0', c['k']), kind='corr-snapshots:original')
+        if c.get('got') is not None and not c.get('astral'):
+            if cmp_trace(ctx, case, 'history on the loaded model (' + c['place'] + ')', mtrace1, c['got']) == 'same':
+                ctx.count(('corr-trace1', c['k']), kind='corr-history:loaded:' + c['place'])
+        if c.get('snap') is not None and not c.get('astral'):
+            isnap0, itrace = c['snap']
+            r = cmp_snap(ctx, dict(case, step='after load'), 'cache after from_file', msnap0, isnap0)
+            for j, ((iv, isn), m) in enumerate(zip(itrace, mtrace1)):
+                if r != 'same':
+                    break
+                if iv is not None and val_rel(mval(m[0]), iv) != 'same':
+                    r = val_rel(mval(m[0]), iv)
+                    if r == 'diff':
+                        ctx.divergence(dict(case, step=j, leg='post-load history'), iv, mval(m[0]),
+                                       'value returned by the loaded model = value returned by the loaded ExcelCompiler')
+                    break
+                r = cmp_snap(ctx, dict(case, step=j), 'cache along the post-load history', m[1], isn)
+            if r == 'same':
+                ctx.count(('corr-snap', c['k']), kind='corr-snapshots:loaded')
+
+
 def file_hash(p):
     return hashlib.md5(open(p, 'rb').read()).hexdigest()
 
@@ -94,9 +393,19 @@ def run(ctx):
         "multi-line) x {yml, json, pkl} x {cycles off, on} x {same process, fresh thread, fresh process (sampled)} "
         "x a post-load history of 6-10 evaluate/set_value operations run on the original and on the loaded model; "
         "plus second-save byte identity, save-of-loaded content identity, survival of cycles/filename/extra_data; "
-        "distinct = distinct (workbook, format, cycles, place)")
+        "distinct = distinct (workbook, format, cycles, place). Correspondence with coq/Model/Persist.v (extracted): "
+        "every such case whose workbook is inside the model is replayed on the extracted model — the parsed saved "
+        "file (top-level key order, cell-map addresses in order, constants, code text, settings), the history on "
+        "the original, the history on the loaded model wherever it was loaded, the cache snapshot after from_file "
+        "and after every post-load operation of an extra in-process load, the settings of the loaded model and the "
+        "document written by a save of the loaded model are compared exactly (iterative cases: documents only); a "
+        "second stream saves models after evaluating a random subset of the cells in a random order (cell-map key "
+        "order differs from the sorted order; unsaved cells read as blank after the load) with histories inside the "
+        "saved cells; the extra_data cases compare the key order of a first and a second save of the same object "
+        "and the keys of the loaded extra_data")
     nwb = ctx.n(70, 800)
     nproc = 0
+    batch = []          # correspondence cases (model = coq/Model/Persist.v)
     for k in range(nwb):
         wb = wbgen.gen_workbook(rng, ncells=rng.randrange(5, 10), pool=wbgen.CLEAN_POOL)
         for i in wb.inputs():
@@ -126,6 +435,17 @@ def run(ctx):
             continue
         fname = stem + '.' + ext
         ctx.count((k, ext, cycles, place), kind=f'{ext}:{"cycles" if cycles else "plain"}:{place}', sample=case)
+        # ---- correspondence: what is saved (captured before the history changes the original)
+        corr = corr_capture(orig, wb, ext, cycles)
+        if corr is None:
+            ctx.count(('corr-skip', k), kind='corr-skip:outside the model', nontrivial=False)
+        else:
+            corr.update(case=case, k=k, place=place, astral=_json_astral(case))
+            if ext != 'pkl':
+                try:
+                    corr['doc'] = parse_doc(fname, ext)
+                except Exception as exc:      # noqa: BLE001
+                    ctx.divergence(case, repr(exc), 'n/a', 'the saved file parses')
         # ---- determinism: a second save of the unchanged model is byte-identical (text formats)
         if ext != 'pkl':
             h1 = file_hash(fname)
@@ -181,6 +501,16 @@ def run(ctx):
             else:
                 res = json.load(open(outp))
                 got, meta = res['trace'], dict(cycles=res['cycles'], filename=res['filename'])
+        if corr is not None:
+            corr.update(ops=ops, want=jsonable(want), got=jsonable(got) if got is not None else None, meta=meta)
+            batch.append(corr)
+            if not cycles and not corr['astral']:
+                # an extra in-process load, observed with cache snapshots
+                try:
+                    l3 = ExcelCompiler.from_file(fname)
+                    corr['snap'] = (wbgen.snapshot(l3, wb), run_ops_snap(l3, wb, ops))
+                except Exception:      # noqa: BLE001  (the oracle legs report load/evaluate failures)
+                    pass
         if got is not None and jsonable(got) != jsonable(want):
             first = next(i for i, (a, b) in enumerate(zip(jsonable(got), jsonable(want))) if a != b)
             ctx.violation(dict(case, history=ops[:first + 1]),
@@ -212,9 +542,66 @@ def run(ctx):
                                   impl=str(b.get('cell_map'))[:200], expected=str(a.get('cell_map'))[:200])
             except Exception as exc:      # noqa: BLE001
                 ctx.violation(dict(case, leg='resave'), f"re-saving the loaded model raises {type(exc).__name__}: {exc}"[:200])
+            if corr is not None and os.path.exists(os.path.join(ctx.work, f'm{k}_again.{ext}')):
+                try:
+                    corr['doc2'] = parse_doc(os.path.join(ctx.work, f'm{k}_again.{ext}'), ext)
+                except Exception:      # noqa: BLE001
+                    pass
         for f in os.listdir(ctx.work):
             if f.startswith(f'm{k}') or f.startswith(f'spec{k}') or f.startswith(f'out{k}'):
                 os.remove(os.path.join(ctx.work, f))
+    # ---- correspondence only: models saved after evaluating a random SUBSET of the cells in a random ORDER (the
+    #      cell map's key order is then not the sorted order, and cells outside the saved model read as blank after
+    #      the load); the post-load history stays inside the saved cells
+    for k2 in range(ctx.n(45, 500)):
+        wb = wbgen.gen_workbook(rng, ncells=rng.randrange(5, 10), pool=wbgen.CLEAN_POOL)
+        for i in wb.inputs():
+            if rng.random() < 0.4:
+                wb.nodes[i]['value'] = rng.choice(CONTENT_POOL)
+        ext = ['yml', 'json', 'pkl'][k2 % 3]
+        cells = wb.cells()
+        rng.shuffle(cells)
+        subset = cells[:rng.randrange(1, len(cells) + 1)]
+        case = dict(call='persist-partial', workbook=[(x['addr'], x.get('value'), x.get('text')) for x in wb.nodes],
+                    args=[ext, 'plain', 'same'], evaluated=[wb.nodes[i]['addr'] for i in subset])
+        stem = os.path.join(ctx.work, f'p{k2}')
+        try:
+            comp = ExcelCompiler(excel=wb.to_openpyxl())
+            for i in subset:
+                comp.evaluate(wb.nodes[i]['addr'])
+            corr = corr_capture(comp, wb, ext, False, pre=subset)
+            if corr is None or _json_astral(dict(case, call='persist')):
+                ctx.count(('corr-skip', 'p', k2), kind='corr-skip:outside the model', nontrivial=False)
+                continue
+            comp.to_file(stem, file_types=(ext,))
+            corr.update(case=case, k=('p', k2), place='same', astral=False, meta=None, got=None)
+            if ext != 'pkl':
+                corr['doc'] = parse_doc(stem + '.' + ext, ext)
+            saved = [i for i in wb.cells() if wb.nodes[i]['addr'] in comp.cell_map]
+            saved_inputs = [i for i in saved if wb.nodes[i]['kind'] == 'input']
+            ops = []
+            for _ in range(rng.randrange(5, 9)):
+                if saved_inputs and rng.random() < 0.4:
+                    ops.append(['set', wb.nodes[rng.choice(saved_inputs)]['addr'], rng.choice(wbgen.CLEAN_POOL)])
+                else:
+                    ops.append(['eval', wb.nodes[rng.choice(saved)]['addr']])
+            loaded = ExcelCompiler.from_file(stem + '.' + ext)
+            snap0 = wbgen.snapshot(loaded, wb)
+            if ext != 'pkl':
+                loaded.to_file(stem + '_again', file_types=(ext,))
+                corr['doc2'] = parse_doc(stem + '_again.' + ext, ext)
+            corr['snap'] = (snap0, run_ops_snap(loaded, wb, ops))
+            corr['snap_orig'] = run_ops_snap(comp, wb, ops)
+            corr.update(ops=ops, want=jsonable([['ok', canon_j(v)] for v, _ in corr['snap_orig']]))
+            ctx.count(('partial', k2), kind=f'partial-model:{ext}', sample=case)
+            batch.append(corr)
+        except Exception as exc:      # noqa: BLE001
+            ctx.divergence(case, f'{type(exc).__name__}: {exc}'[:300], 'n/a',
+                           'a partially built model is saved, loaded and run without an exception')
+        finally:
+            for f in os.listdir(ctx.work):
+                if f.startswith(f'p{k2}.') or f.startswith(f'p{k2}_again'):
+                    os.remove(os.path.join(ctx.work, f))
     # ---- extra_data survives
     wb = wbgen.gen_workbook(rng, ncells=6, pool=wbgen.CLEAN_POOL)
     for ext in ('yml', 'json', 'pkl'):
@@ -230,4 +617,20 @@ def run(ctx):
         if json.loads(json.dumps(ed, default=list)) != {'note': 'x: y', 'n': 3, 'l': [1, 'a']}:
             ctx.violation(dict(call='persist', args=[ext, 'extra_data']), "extra_data does not survive the trip",
                           impl=str(ed), expected="{'note': 'x: y', 'n': 3, 'l': [1, 'a']}")
+        # ---- correspondence only: with a user dictionary the model predicts the key order of the first save, of a
+        #      second save of the same object (cell_map moves last: coq/Refuted/C03_resave_extra_data.v) and the keys
+        #      of the loaded extra_data (the user's keys + 'filename')
+        if ext != 'pkl':
+            corr = corr_capture(comp, wb, ext, False)
+            if corr is not None:
+                corr['settings'][3] = [1, [[[ord(ch) for ch in kk], enc_val(vv)]
+                                           for kk, vv in (('note', 'x: y'), ('n', 3), ('l', [1, 'a']))]]
+                corr.update(case=dict(call='persist', args=[ext, 'extra_data']), k=('extra', ext), place='same',
+                            astral=False, ops=[], want=[], got=[], meta=None,
+                            extra_keys=[str(kk) for kk in loaded.extra_data])
+                corr['doc'] = parse_doc(stem + '.' + ext, ext)
+                comp.to_file(stem, file_types=(ext,))
+                corr['doc_again'] = parse_doc(stem + '.' + ext, ext)
+                batch.append(corr)
+    correspondence(ctx, batch)
     shutil.rmtree(ctx.work, ignore_errors=True)
